@@ -33,5 +33,9 @@ type Vector struct {
 
 // Call the function with the arguments provided.
 func (f *Vector) Call(s *slip.Scope, args slip.List, depth int) slip.Object {
-	return slip.NewVector(len(args), slip.TrueSymbol, nil, args, true)
+	// The arguments belong to the caller, a mapping function uses the same
+	// list for every call.
+	elements := make(slip.List, len(args))
+	copy(elements, args)
+	return slip.NewVector(len(elements), slip.TrueSymbol, nil, elements, true)
 }
